@@ -63,3 +63,18 @@ package tree
 //@   requires twf(t) && inTree(t, t.id)
 //@   ensures [root-has-no-peers] isPos(t, t.id, 0) ==> len(result) == 0
 //@   ensures [children-of-the-parent] forall p int :: p >= 1 && isPos(t, t.id, p) ==> len(result) == max(0, min(len(t.treePosToID), (p - 1) / t.branchFactor * t.branchFactor + 1 + t.branchFactor) - ((p - 1) / t.branchFactor * t.branchFactor + 1)) && (forall k int :: 0 <= k && k < len(result) ==> result[k] == t.treePosToID[(p - 1) / t.branchFactor * t.branchFactor + 1 + k])
+
+// ---- heights (C17: "heights are consistent with that shape"). lsize(bf, h) = bf^h is the
+// size of level h, full(bf, h) the number of positions in the first h levels. treeHeight
+// returns the least number of levels that hold numNodes positions.
+//@ pure func lsize(bf int, h int) int = h <= 0 ? 1 : lsize(bf, h - 1) * bf decreases h
+//@ pure func full(bf int, h int) int = h <= 0 ? 0 : full(bf, h - 1) + lsize(bf, h - 1) decreases h
+//@ func treeHeight property C17
+//@   requires 2 <= bf && bf <= 65536 && numNodes <= 268435456
+//@   ensures [empty] numNodes <= 0 ==> height == 0
+//@   ensures [least-number-of-levels] numNodes > 0 ==> height >= 1 && full(bf, height - 1) < numNodes && numNodes <= full(bf, height)
+//@   loop 0 invariant [h] height >= 0 && levelSize == lsize(bf, height) && levelSize >= 1
+//@   loop 0 invariant [left] numNodes == numNodes0 - full(bf, height)
+//@   loop 0 invariant [least] height == 0 || numNodes0 > full(bf, height - 1)
+//@   loop 0 invariant [nonneg] full(bf, height) >= height && (height >= 1 ==> full(bf, height - 1) >= 0 && lsize(bf, height - 1) >= 1 && full(bf, height) >= lsize(bf, height - 1) && levelSize == lsize(bf, height - 1) * bf)
+//@   loop 0 invariant [small] height == 0 || levelSize <= 65536 * 268435456 * 65536
